@@ -1159,6 +1159,21 @@ Proof.
 Qed.
 
 (* ================================================================== Part C: lock-step all / minimal *)
+(* the guard of this file: every target has a command AND is cacheable (what Build_ideal.plain meant before
+   C01 admitted no-cache targets; the statements of C15 keep that meaning) *)
+Definition plain_cacheable_node (n : ndef) : bool :=
+  match n with NTarget t => negb (null (td_cmd t)) && negb (td_nocache t) | NAlias _ _ => true end.
+Definition plain_cacheable (s : sources) : Prop := forallb plain_cacheable_node (s_nodes s) = true.
+
+Lemma plain_cacheable_target s i t :
+  plain_cacheable s -> node_at s i = Some (NTarget t) -> null (td_cmd t) = false /\ td_nocache t = false.
+Proof.
+  unfold plain_cacheable, node_at. intros Hp Hn. apply nth_error_In in Hn.
+  rewrite forallb_forall in Hp. specialize (Hp _ Hn). cbn [plain_cacheable_node] in Hp.
+  apply andb_true_iff in Hp. destruct Hp as [H1 H2].
+  apply negb_true_iff in H1. apply negb_true_iff in H2. auto.
+Qed.
+
 Section Lockstep.
 Variable H : str -> str.
 Hypothesis H_inj : forall a b, H a = H b -> a = b.
@@ -1348,7 +1363,7 @@ Hypothesis HcA : cfg_cache cfgA = true.
 Hypothesis HcM : cfg_cache cfgM = true.
 Hypothesis Hff : cfg_failfast cfgA = cfg_failfast cfgM.
 Hypothesis Hno : no_overwrite s.
-Hypothesis Hpl : plain s.
+Hypothesis Hpl : plain_cacheable s.
 
 (* the outputs of target j in the workspace are the ones its result (under this build's key) records *)
 Definition cur (b : bstate) (j : nat) (tj : tdef) : Prop :=
@@ -1477,7 +1492,7 @@ Proof.
         rewrite Er in Hres. inversion Hres; subst j' tj'. apply Hmono, Eld. }
       destruct (load_dep_M bA bM j tj HG HS Hn (Hdeps d0 j tj (or_introl eq_refl) Er))
         as (key & r & b1 & Hk & Hr & El & HS1 & Hl1 & Hmono1).
-      rewrite Hk, Hr, El. destruct (plain_target s j tj Hpl Hn) as [_ Hnc]. rewrite Hnc.
+      rewrite Hk, Hr, El. destruct (plain_cacheable_target s j tj Hpl Hn) as [_ Hnc]. rewrite Hnc.
       cbn [negb orb andb].
       destruct (IH f b1 HS1 ltac:(lia) Hdeps') as (bM' & E & HS' & Hmono & Hall).
       exists bM'. split; [exact E|]. split; [exact HS'|]. split; [auto|].
@@ -1736,7 +1751,7 @@ Lemma execA cfg k t key tn b ok b3 :
   coreA (mark b3 k (if ok then TExecuted else TFailed)).
 Proof.
   intros Hcc Hn HC Hk0 Hfresh E. pose proof HC as (Hci & Hlen & Hgood).
-  destruct (plain_target s k t Hpl Hn) as [Hcmd Hnc].
+  destruct (plain_cacheable_target s k t Hpl Hn) as [Hcmd Hnc].
   assert (Hk : k < rt_len (pt_b0 k key b)) by (rewrite pt_b0_len, Hlen; eapply node_at_lt; eauto).
   destruct (execute_shape H cfg s k t key tn _ ok b3 Hk E) as (Hoth & Hws & Hf & Ht).
   pose proof (execute_len _ _ _ _ _ _ _ _ E) as Hl3. rewrite pt_b0_len in Hl3.
@@ -2018,7 +2033,7 @@ Proof.
   pose proof HC as (Hci & Hlen & Hgood).
   pose proof HS2 as (Sc & Sx & Ss & Se & Sl & Srt & Sld).
   pose proof (Hz k (le_n _)) as Hk0.
-  destruct (plain_target s k t Hpl Hn) as [Hcmd _].
+  destruct (plain_cacheable_target s k t Hpl Hn) as [Hcmd _].
   set (b0A := pt_b0 k key bA) in *.
   assert (HkA : k < rt_len b0A) by (unfold b0A; rewrite pt_b0_len, Hlen; eapply node_at_lt; eauto).
   assert (HkM : k < rt_len bM2) by (rewrite <- Sl; exact HkA).
@@ -2279,7 +2294,7 @@ Definition hsim (yA yM : sys) : Prop :=
 Definition op_guard (yA : sys) (o : op) : Prop :=
   match o with
   | OpBuild cfg roots =>
-      cfg_cache cfg = true /\ no_overwrite (sy_src yA) /\ plain (sy_src yA) /\ deps_short (sy_src yA) /\
+      cfg_cache cfg = true /\ no_overwrite (sy_src yA) /\ plain_cacheable (sy_src yA) /\ deps_short (sy_src yA) /\
       build_guard (mkCfg LAll (cfg_cache cfg) (cfg_failfast cfg)) (sy_src yA) (sy_cache yA) roots (sy_world yA)
   | OpDropBlob _ => False
   | _ => True
@@ -2442,7 +2457,7 @@ Qed.
 Definition op_guardb (yA : sys) (o : op) : bool :=
   match o with
   | OpBuild cfg roots =>
-      cfg_cache cfg && nodupb (all_out_paths (sy_src yA)) && forallb plain_node (s_nodes (sy_src yA)) &&
+      cfg_cache cfg && nodupb (all_out_paths (sy_src yA)) && forallb plain_cacheable_node (s_nodes (sy_src yA)) &&
       deps_shortb (sy_src yA) &&
       build_guardb (mkCfg LAll (cfg_cache cfg) (cfg_failfast cfg)) (sy_src yA) (sy_cache yA) roots (sy_world yA)
   | OpDropBlob _ => false
